@@ -66,3 +66,35 @@ Definition row_normalize (M : mat) : mat :=
 
 Definition mat_of_Z (M : list (list Z)) : mat := map (map Qc_of_Z) M.
 Definition is_square (M : mat) : bool := forallb (fun r => Nat.eqb (length r) (length M)) M.
+
+(* ---- integer-scaled power: the same power computed without rational
+   normalisation (common denominator L, integer matrix A = L * M, A^k / L^k) ---- *)
+Definition zdot (a b : list Z) : Z := fold_right Z.add 0%Z (map (fun p => (fst p * snd p)%Z) (combine a b)).
+Definition zcol (M : list (list Z)) (j : nat) : list Z := map (fun r => nth j r 0%Z) M.
+Definition ztranspose (M : list (list Z)) : list (list Z) :=
+  map (zcol M) (seq 0 (match M with [] => O | r :: _ => length r end)).
+Definition zmmul (A B : list (list Z)) : list (list Z) :=
+  let Bt := ztranspose B in map (fun r => map (fun c => zdot r c) Bt) A.
+Definition zidentity (n : nat) : list (list Z) :=
+  map (fun i => map (fun j => if Nat.eqb i j then 1%Z else 0%Z) (seq 0 n)) (seq 0 n).
+Fixpoint zmpow_pos (M : list (list Z)) (p : positive) : list (list Z) :=
+  match p with
+  | xH => M
+  | xO q => let H := zmpow_pos M q in zmmul H H
+  | xI q => let H := zmpow_pos M q in zmmul M (zmmul H H)
+  end.
+Definition zmpow (M : list (list Z)) (k : nat) : list (list Z) :=
+  match k with O => zidentity (length M) | S _ => zmpow_pos M (Pos.of_nat k) end.
+
+Definition plcm (a b : positive) : positive := Z.to_pos (Z.lcm (Zpos a) (Zpos b)).
+Definition common_den (M : mat) : positive :=
+  fold_right (fun r acc => fold_right (fun q acc' => plcm (Qden (this q)) acc') acc r) 1%positive M.
+Definition scale_to_Z (L : positive) (M : mat) : list (list Z) :=
+  map (map (fun q => (Qnum (this q) * (Zpos L / Zpos (Qden (this q))))%Z)) M.
+Definition mpow_scaled (M : mat) (k : nat) : mat :=
+  let L := common_den M in
+  let Lk := Pos.pow L (Pos.of_nat k) in
+  match k with
+  | O => identity (length M)
+  | S _ => map (map (fun z => Q2Qc (Qmake z Lk))) (zmpow (scale_to_Z L M) k)
+  end.
